@@ -39,7 +39,7 @@ def scen(sid, regime, zs, order="zfirst", victimLen=0, honest=1, deadline=30000,
             z["forkAt"] = r["trunk"]
             if z["forkLen"] == 0:
                 z["forkLen"] = r["forkLen"]
-    d = dict(id=sid, shape="%s|%s|%s" % (regime, order, "+".join(zlabel(z) for z in zs)), trunk=r["trunk"], victimLen=victimLen,
+    d = dict(id=sid, shape="%s|%s|%s%s" % (regime, order, "+".join(zlabel(z) for z in zs) or "honest-only", "|cpvictim" if kw.get("victimCheckpoint") else ""), trunk=r["trunk"], victimLen=victimLen,
              honestLen=r["honestLen"], honest=honest, z=zs, order=order, deadlineMs=deadline, announce="both", **H)
     d.update(kw)
     return d
@@ -209,6 +209,22 @@ def catalogue(tier, seed):
     if thorough:
         add("mid", [zspec(view="fork", forkLen=150, badAt=9, badKind="commitment-asif", expect="ban", dials=True)], victimLen=130, honestLen=132, deadline=60000, order="together")
 
+    # ---- checkpoint-bootstrapped victim (NewDBStoreAtCheckpoint on the common trunk): it sits on its own fork D blocks above
+    # the fork point T and must find a common ancestor with the honest peer although T falls BETWEEN its sampled history
+    # heights (tip-0..9, -11, -15, -23, -39, ...) -- the sample ends with the lowest block it holds.  Fork point at the
+    # checkpoint, just above the lowest held block, between samples; tip-to-checkpoint distances 12..36; honest peer only
+    # and honest + Byzantine.  (The honest peer's own sync loop is off, or its chain length makes ITS sample hit the
+    # victim's stored range: a full node that finds no common id with a checkpoint peer drops it -- see the assumptions.)
+    cpv = [(12, 0, 15, False), (12, 1, 14, False), (12, 2, 13, True), (17, 4, 20, True), (30, 6, 34, True)]
+    for D, below, L, quiet in (cpv if thorough else cpv[:4]):
+        for regime in (["mid", "post"] if thorough else ["post" if D == 12 and below == 0 else "mid"]):
+            T = REGIMES[regime]["trunk"] if regime == "post" else 27
+            add(regime, [], trunk=T, victimLen=D, honestLen=L, victimCheckpoint=T - below, quietP=quiet, order="pfirst", deadline=30000)
+    add("mid", [zspec(rules=[dict(rpc="SendV2Blocks", kind="mismatch")]), zspec(name="z1", view="fork", forkAt=27, badAt=2, badKind="badtxn", expect="ban")],
+        trunk=27, victimLen=17, honestLen=20, victimCheckpoint=23, quietP=True, order="together", deadline=30000)
+    add("post", [zspec(rules=[dict(rpc="SendHeaders", kind="unlinked", pos=1)])], victimLen=12, honestLen=13, victimCheckpoint=REGIMES["post"]["trunk"] - 2, quietP=True,
+        order="zfirst", deadline=30000)
+
     # ---- in-flight budget flood: the victim runs with WithMaxInflightRPCsPerSubnet(cap) and /24 subnet keys; the Byzantine
     # peer shares the /24 with the honest peer.  After the victim has synced, it fills the budget with half-open RPCs (id,
     # never the request), sends more RPCs while the budget is full (dropped), disconnects -- possibly several rounds --
@@ -258,7 +274,8 @@ def catalogue(tier, seed):
 # ------------------------------------------------------------------ legs
 
 def leg_m_jobs(tier):
-    jobs = [("SyncMC", "Sync_byz_asif.cfg", "Sync byzantine two-phase fork (invalid block stored header-only, descendants built as if it were valid delivered pre-validated): safety + HonestProgress", 4, 900),
+    jobs = [("SyncMC", "Sync_byz_cp.cfg", "Sync byzantine, checkpoint-bootstrapped victim whose fork point lies between its sampled heights (history anchored at its lowest block): safety + HonestProgress", 4, 900),
+            ("SyncMC", "Sync_byz_asif.cfg", "Sync byzantine two-phase fork (invalid block stored header-only, descendants built as if it were valid delivered pre-validated): safety + HonestProgress", 4, 900),
             ("SyncMC", "Sync_byz_twin.cfg", "Sync byzantine ID twin (honest header, swapped body) served from a lighter fork prefix: healed by honest re-delivery, culprit banned: safety + HonestProgress", 4, 900),
             ("SyncMC", "Sync_byz_plant.cfg", "Sync byzantine plant-then-serve (two Byzantine peers; a rejected block's stored state is not 'validated'): safety + HonestProgress", 4, 900),
             ("SyncMC", "Sync_byz_quick.cfg", "Sync byzantine (victim + honest + Byzantine peer, 8-block tree): safety + HonestProgress", 6, 1500)]
@@ -427,6 +444,10 @@ def selftest():
     ok3b = x.exit != 0 and x.violated == "AlwaysValid"
     log("selftest 3 (model that skips ValidateBlock for blocks whose state is already stored violates AlwaysValid): %s" % ("ok" if ok3b else "FAILED"))
     ok3 = ok3 and ok3b
+    x = vlib.run_tlc(wd, "SyncMC", "Sync_byz_cp_dev.cfg", workers=4, timeout=900)
+    good = x.exit != 0 and "HonestProgress was violated" in (x.error or "") + x.out
+    log("selftest 3 (model of a checkpoint victim whose history sample lacks its lowest block: no common history, HonestProgress violated): %s" % ("ok" if good else "FAILED"))
+    ok3 = ok3 and good
     x = vlib.run_tlc(wd, "SyncMC", "Sync_byz_twin_dev.cfg", workers=4, timeout=900)
     good = x.exit != 0 and "HonestProgress was violated" in (x.error or "") + x.out
     log("selftest 3 (model whose AddBlocks skips re-delivered stored blocks at or below the tip: the twin is never healed, HonestProgress violated): %s" % ("ok" if good else "FAILED"))
